@@ -1,2 +1,86 @@
-(* C07 placeholder *)
-From MPB Require Import Base.
+(* C07 — A rendered row never exceeds its width, and rendering always
+   terminates. Statements only; proofs in FillerProofs.v / DecorProofs.v.
+   History: on the pinned tree fill_bar returned None (the Go loop did not
+   terminate) for a zero-width filler/refiller/padding, and a tip wider than
+   the inner width overflowed; repaired by two "fix:" commits in /repo. *)
+From MPB Require Import Base BaseProofs F64 Percent PercentProofs Filler FillerProofs Decor DecorProofs.
+
+(* rendering terminates: for every style (zero-width and empty components
+   included), every width and every progress value *)
+Theorem C07_fill_bar_terminates : forall st tc s, fill_bar st tc s <> None.
+Proof. exact fill_bar_terminates. Qed.
+Print Assumptions C07_fill_bar_terminates.
+
+Theorem C07_loops_terminate : forall cw lim fc, run_loop cw lim fc <> None.
+Proof. exact run_loop_total. Qed.
+Print Assumptions C07_loops_terminate.
+
+(* nothing is drawn when the brackets do not fit *)
+Theorem C07_nothing_when_too_narrow : forall st tc s,
+  inner_width st s < 0 -> fill_bar st tc s = Some ([], tc).
+Proof. exact fill_bar_nothing_when_too_narrow. Qed.
+Print Assumptions C07_nothing_when_too_narrow.
+
+(* when the bar body is drawn it occupies exactly the width allotted to it *)
+Theorem C07_fill_bar_exact_width : forall st tc s out tc',
+  0 <= inner_width st s < 2^31 ->
+  0 <= s_total s < 2^63 -> 0 <= s_current s < 2^63 -> 0 <= s_refill s < 2^63 ->
+  Forall (fun t => 0 <= t) (tips st) ->
+  fill_bar st tc s = Some (out, tc') ->
+  segs_width out = check_requested_width (req s) (avail s).
+Proof.
+  intros st tc s out tc' Hw Ht Hc Hr Htips E.
+  rewrite (fill_bar_width st tc s out tc'); auto; try lia.
+  - unfold inner_width. lia.
+  - apply cells_range; lia.
+  - apply cells_range; lia.
+Qed.
+Print Assumptions C07_fill_bar_exact_width.
+
+Theorem C07_fill_bar_exact_width_any_cells : forall st tc s out tc',
+  0 <= inner_width st s ->
+  0 <= cells (s_total s) (s_current s) (inner_width st s) <= inner_width st s ->
+  0 <= cells (s_total s) (s_refill s) (inner_width st s) ->
+  Forall (fun t => 0 <= t) (tips st) ->
+  fill_bar st tc s = Some (out, tc') ->
+  segs_width out = lb st + inner_width st s + rb st.
+Proof. exact fill_bar_width. Qed.
+Print Assumptions C07_fill_bar_exact_width_any_cells.
+
+Theorem C07_spinner_width : forall st count s,
+  Forall (fun t => 0 <= t) (frames st) ->
+  let width := check_requested_width (req s) (avail s) in
+  let out := fst (fill_spinner st count s) in
+  segs_width out = 0 \/ segs_width out = width.
+Proof. exact fill_spinner_width. Qed.
+Print Assumptions C07_spinner_width.
+
+(* every built-in decorator (every wrapper tree over WC.Format) reports a width
+   equal to the display width of the text it returns *)
+Theorem C07_format_width_true : forall d completed aborted,
+  let '(txt, wd) := decor_plain d completed aborted in segs_width txt = wd.
+Proof. exact format_width_true. Qed.
+Print Assumptions C07_format_width_true.
+
+Theorem C07_format_width_true_synced : forall c t colmax,
+  need_width c t <= colmax -> segs_width (pad_to c t colmax) = colmax.
+Proof. exact format_width_true_synced. Qed.
+Print Assumptions C07_format_width_true_synced.
+
+(* a decorator that does not fit is cut (with an ellipsis) to the remaining width *)
+Theorem C07_truncate_le : forall t wd, wf_text t -> 0 < wd -> segs_width (truncate t wd) <= wd.
+Proof. exact truncate_le. Qed.
+Print Assumptions C07_truncate_le.
+
+(* the row is at most the terminal width, for every terminal width, every list
+   of width-honest decorators and every filler that respects the width offered *)
+Theorem C07_draw_width_le : forall A tw pre apd trim (filler : Z -> option (text * A)) row st,
+  0 <= tw -> honest pre -> honest apd -> polite filler ->
+  draw tw pre apd trim filler = Some (row, st) -> segs_width row <= tw.
+Proof. intros A. exact (@draw_width_le A). Qed.
+Print Assumptions C07_draw_width_le.
+
+Example C07_nonvacuous :
+  exists out, fill_bar (mkStyle 1 1 0 2 0 [3; 1] true true) 4 (mkStat 9 0 100 50 20 false false) = Some (out, 5)
+    /\ segs_width out = 9.
+Proof. eexists; vm_compute; split; reflexivity. Qed.
